@@ -33,19 +33,22 @@ fn check_header(out: &[u8], hash: &[u8; 32], flags: u8, count: u32) {
 
 /// MakeCredential flavour, attested credential data with aaguid A, credential id ID and key
 /// KEY bytes (contents symbolic), no extensions
-fn mc_instance<const A: usize, const ID: usize, const KEY: usize>() {
+fn mc_instance<const A: usize, const ID: usize, const KEY: usize, const A1: usize, const ID1: usize, const KEY1: usize>() {
     let hash: [u8; 32] = kani::any();
     let fb: u8 = kani::any();
     let flags = AuthenticatorDataFlags::from_bits_truncate(fb);
     let count: u32 = kani::any();
-    let aaguid: [u8; A] = kani::any();
-    let id: [u8; ID] = kani::any();
-    let key: [u8; KEY] = kani::any();
+    // zero-sized symbolic arrays make CBMC's pointer reasoning pathologically slow (measured:
+    // 25 min for A = 0): allocate one spare byte and slice with a concrete length instead
+    let aaguid_buf: [u8; A1] = kani::any();
+    let id_buf: [u8; ID1] = kani::any();
+    let key_buf: [u8; KEY1] = kani::any();
+    let (aaguid, id, key) = (&aaguid_buf[..A], &id_buf[..ID], &key_buf[..KEY]);
     let ad = make_credential::AuthenticatorData {
         rp_id_hash: &hash,
         flags,
         sign_count: count,
-        attested_credential_data: Some(AttestedCredentialData { aaguid: &aaguid, credential_id: &id, credential_public_key: &key }),
+        attested_credential_data: Some(AttestedCredentialData { aaguid, credential_id: id, credential_public_key: key }),
         extensions: None,
     };
     let r = ad.serialize();
@@ -55,10 +58,10 @@ fn mc_instance<const A: usize, const ID: usize, const KEY: usize>() {
             Ok(out) => {
                 assert!(out.len() == total, "length = sum of the parts");
                 check_header(&out, &hash, fb & 0xC5, count);
-                assert!(eq(&out[37..37 + A], &aaguid), "aaguid");
+                assert!(eq(&out[37..37 + A], aaguid), "aaguid");
                 assert!(out[37 + A] == (ID >> 8) as u8 && out[38 + A] == (ID & 0xff) as u8, "credentialIdLength 2 bytes big-endian");
-                assert!(eq(&out[39 + A..39 + A + ID], &id), "credential id");
-                assert!(eq(&out[39 + A + ID..], &key), "credential public key");
+                assert!(eq(&out[39 + A..39 + A + ID], id), "credential id");
+                assert!(eq(&out[39 + A + ID..], key), "credential public key");
             }
             Err(_) => assert!(false, "authenticator data within capacity must serialize"),
         }
@@ -73,7 +76,7 @@ macro_rules! mc {
         #[kani::proof]
         #[kani::unwind($unwind)]
         fn $name() {
-            mc_instance::<{ $a }, { $id }, { $key }>();
+            mc_instance::<{ $a }, { $id }, { $key }, { $a + 1 }, { $id + 1 }, { $key + 1 }>();
         }
     };
 }
@@ -283,7 +286,10 @@ fn mc_ext_instance(mask: u8) {
     let aaguid: [u8; 16] = kani::any();
     let id: [u8; 16] = kani::any();
     let key: [u8; 8] = kani::any();
-    let cp: u8 = kani::any();
+    // credProtect value: symbolic over the whole 2-byte head class when it is the only member;
+    // a symbolic integer followed by further members makes the encoder's write position an
+    // ite() (measured 8-12 min), so it is the constant 0x19 there
+    let cp: u8 = if mask == 1 { kani::any() } else { 0x19 };
     kani::assume(cp >= 24); // 2-byte head class (0..=23 would live in the head byte)
     let hs: bool = kani::any();
     let lbk: bool = kani::any();
@@ -387,7 +393,7 @@ fn c07_mc_ext_overflow() {
         rp_id_hash: &hash,
         flags: AuthenticatorDataFlags::from_bits_truncate(kani::any()),
         sign_count: kani::any(),
-        attested_credential_data: Some(AttestedCredentialData { aaguid: &aaguid, credential_id: &id, credential_public_key: &[] }),
+        attested_credential_data: Some(AttestedCredentialData { aaguid: &aaguid, credential_id: &id, credential_public_key: &id[..0] }),
         extensions: Some(ext),
     };
     assert!(matches!(ad.serialize(), Err(Error::Other)), "extension map that does not fit => Err(Other)");
